@@ -1026,7 +1026,11 @@ def _val_to_numpy(
 
     if isinstance(getattr(val, "dtype", None), np.dtype):
         if as_list:
-            return NumbaList([np.asarray(val)])
+            arr = np.asarray(val)
+            if arr.dtype.kind in "OUST":
+                # numba cannot type a list of object/string arrays
+                return [arr]
+            return NumbaList([arr])
         else:
             return np.asarray(val)
 
@@ -1047,6 +1051,9 @@ def _val_to_numpy(
         val_list = [np.asarray(val)]
 
     if as_list:
+        if any(v.dtype.kind in "OUST" for v in val_list):
+            # numba cannot type a list of object/string arrays
+            return val_list
         return NumbaList(val_list)
     else:
         if len(val_list) > 1:
